@@ -182,7 +182,7 @@ class PollHandler(Handler):
             # moving a value out of an object place (e.g. `move (*slot)`): leave as is (Option::take is the modelled way)
             return st
         new = it.proj_write(base, path[1:], val) if len(path) > 1 else val
-        if st.get(("g", "inflight")) == name and isinstance(val, tuple) and val[:3] == ("var", OPT, "Some"):
+        if (st.get(("g", "inflight")) == name or str(st.get(("g", "inflight")) or "").startswith("@")) and isinstance(val, tuple) and val[:3] == ("var", OPT, "Some"):
             st = st.delete(("g", "inflight"))
         return st.set(("o", name), new)
 
@@ -197,6 +197,10 @@ class PollHandler(Handler):
                 return
             self.report(it, "K1", "slot-overwrite:%s" % name,
                         "`%s` is overwritten while it still holds a value: the buffered %s is lost" % (name, "message" if "err" not in name else "rejected peer (dropped un-notified / un-closed)"), span)
+        if not getattr(self, "_in_take", False) and name in self.cfg.data_slots and name != self.cfg.rebind_slot and "err" not in name and isinstance(old, tuple) and old[:3] == ("var", OPT, "Some") and \
+                isinstance(new, tuple) and new[:3] == ("var", OPT, "None"):
+            # a buffered message cleared by assignment (not taken out to be sent): it is discarded
+            self.report(it, "K13", "message-dropped:%s" % name, "the message buffered in `%s` is discarded (`%s = None`) instead of being handed to a sink" % (name, name), span)
         if name == self.cfg.rebind_slot and isinstance(old, tuple) and old[:3] == ("var", OPT, "Some") and isinstance(new, tuple) and new[:3] == ("var", OPT, "None"):
             # K14: the bound peer is unbound although neither its sink has failed nor its stream has ended (e.g. because *another*
             # peer's sink failed): it silently stops being served and the next registrant takes its place
@@ -377,7 +381,11 @@ class PollHandler(Handler):
                 return [(B(pos if name in ("is_some", "is_ok") else not pos), st, None)]
             return [(B(True), st, None), (B(False), st, None)]
         if name == "take" and loc is not None:
-            st = it.write_loc(st, loc, NONE)
+            self._in_take = True
+            try:
+                st = it.write_loc(st, loc, NONE)
+            finally:
+                self._in_take = False
             if loc[0] == "O" and len(loc[1]) == 1:
                 self.routing.add(("take", loc[1][0], self.token_of(v)))
                 if loc[1][0] in self.cfg.data_slots and loc[1][0] in self.cfg.send_requires_empty.values() and known and v[2] == "Some":
@@ -462,6 +470,11 @@ class PollHandler(Handler):
             item = ("item", pname)
             put(("sset", True, "p"), PENDING, "N:%s.poll_next=Pending" % pname, True)
             put(("sset", True, "n"), ready(some(("tup", (TOP, ok(item))))), "C:%s.poll_next=Some(Ok)" % pname)
+            if pname in getattr(self.cfg, "store_every_item", ()):
+                # every message a publisher's stream yields is owed to the subscribers: it must be put into a slot (or sent) before
+                # the router polls anything else or returns — a conditional discard loses accepted messages
+                r_, s_, l_ = out[-1]
+                out[-1] = (r_, s_.set(("g", "inflight"), "@" + pname), l_)
             put(("sset", True, "n"), ready(some(("tup", (TOP, err())))), "C:%s.poll_next=Some(Err)" % pname)
             put(("sset", False, "n"), ready(NONE), "N:%s.poll_next=None(all ended)" % pname)
             # a stream ends but others remain: stays non-empty, the call goes on to another stream: covered by the outcomes above
@@ -726,6 +739,7 @@ class Explorer:
             self.failed = str(e)
             self.h.findings["unmodelled"] = Finding("unmodelled", "unmodelled-operation:" + re.sub(r" at .*", "", str(e))[:100], str(e), "", {})
         self.check_spin()
+        self.check_close_starved()
         return self
 
     def on_return(self, st, objs, val, bb, node):
@@ -786,6 +800,31 @@ class Explorer:
                 k += 1
                 if k > 12:
                     break
+
+    # -- K15 ---------------------------------------------------------------------------------------------
+    def check_close_starved(self):
+        """within one poll the router may go round as long as its peers supply work; every such round must look at the registration
+        channel, otherwise busy peers keep it from ever noticing that the channel was closed (shutdown waits on the publishers)"""
+        it, h = self.it, self.h
+        if self.shutdown:
+            return
+        keep = {n: [m for m, lab in es if "handle.poll_next" not in (lab or "")] for n, es in it.edges.items()}
+        inv = None
+        for c in flow.sccs_iter(keep):
+            if len(c) > 1 or (c and c[0] in keep.get(c[0], [])):
+                cs = set(c)
+                labs = sorted({lab for n in c for m, lab in it.edges[n] if m in cs and lab})
+                if not any(l.startswith("C:") and "iterator-step" not in l for l in labs):
+                    continue            # (a cycle without progress is K6's business; a `for` over a finite collection ends by itself)
+                if inv is None:
+                    inv = {v: kk for kk, v in it.nodes.items()}
+                bbs = sorted({inv[n][0] for n in c})
+                spans = sorted({it.body.blocks[b]["term"].get("span", "") for b in bbs if it.body.blocks[b]["term"]["k"] == "call"})
+                it.cur_node = c[0]
+                h.report(it, "K15", "close-starved:" + "+".join(sorted({l[2:].split("=")[0] for l in labs}))[:120],
+                         "the router can go round its loop for as long as peers supply work (%s) without polling the registration channel `handle`: a close is not noticed while they are busy"
+                         % "; ".join(l[2:] for l in labs[:6]), spans[0] if spans else "")
+                break
 
     # -- K4 / K5 at returns --------------------------------------------------------------------------------
     def check_return(self, it, h, st, objs, val, bb):
